@@ -331,6 +331,76 @@ class BorrowedSpellings(object):
             shutil.rmtree(d, ignore_errors=True)
 
 
+class ThroughTheRealWriters(object):
+    name = 'borrowed-copies-through-the-real-writers'
+    describe = ('the real compile() with a PyFileBorrower / AnyFileBorrower and the real PyFileWriter (byte-compilation on / off) / '
+                'FileWriter on a scratch destination: the borrowed copy is ordinary Python, Python 2 (print statement, 0777), cut in '
+                'the middle of a statement, headed by a coding line naming no codec, text that is no Python at all, non-ASCII; '
+                'ignoreErrors on / off: the status is borrowed and the destination holds the copy, octet for octet')
+
+    COPIES = {'ordinary': 'x = 1\n', 'python2': 'print "borrowed"\nmode = 0777\n', 'cut': 'def f(a,\n', 'bad-coding': '# -*- coding: no-such-codec -*-\nx = 1\n',
+              'no-python': 'MIB::= {{ this is no Python at all }} $\n', 'non-ascii': '# caf\u00e9 \u4e2d\nx = "\u00e9"\n', 'tabs': 'if 1:\n\tx = 1\n        y = 2\n'}
+
+    def blocks(self, tier):
+        return [{'w': w} for w in ('py-compile', 'py-nocompile', 'file-json')]
+
+    def cases(self, block, tier):
+        for c in sorted(self.COPIES):
+            for ie in (False, True):
+                yield {'w': block['w'], 'copy': c, 'ie': ie}
+
+    def run_case(self, case):
+        from pysmi.borrower.pyfile import PyFileBorrower
+        from pysmi.borrower.anyfile import AnyFileBorrower
+        from pysmi.reader.localfile import FileReader
+        from pysmi.writer.pyfile import PyFileWriter
+        from pysmi.writer.localfile import FileWriter
+        from mc import env
+        base = os.environ.get('VERIF_TMP') or ('/dev/shm' if os.path.isdir('/dev/shm') else None)
+        root = tempfile.mkdtemp(prefix='mcC19w', dir=base)
+        try:
+            bdir, dst = os.path.join(root, 'borrow'), os.path.join(root, 'dst')
+            os.mkdir(bdir)
+            os.mkdir(dst)
+            js = case['w'] == 'file-json'
+            ext = '.json' if js else '.py'
+            copy = self.COPIES[case['copy']]
+            with open(os.path.join(bdir, 'FOO-MIB' + ext), 'wb') as f:
+                f.write(copy.encode('utf-8'))
+            reader = FileReader(bdir)
+            b = AnyFileBorrower(reader).setOptions(exts=['.json']) if js else PyFileBorrower(reader)
+            if js:
+                w = FileWriter(dst).setOptions(suffix='.json')
+            else:
+                w = PyFileWriter(dst).setOptions(pyCompile=case['w'] == 'py-compile', pyOptimizationLevel=0)
+            parser = env.shared_parser('smiV2')
+            parser.reset()
+            comp = env.MibCompiler(parser, env.make_codegen('json' if js else 'pysnmp'), w)
+            texts = env.base_texts()
+            texts['FOO-MIB'] = 'FOO-MIB DEFINITIONS ::= BEGIN this does not parse END\n'
+            comp.addSources(env.DictReader(texts))
+            comp.addSearchers(env.StubSearcher(*env.BASE_NAMES))
+            comp.addBorrowers(b)
+            sig = 'C19|real-writers|%s|%s' % (case['w'], case['copy'])
+            try:
+                res = comp.compile('FOO-MIB', ignoreErrors=case['ie'])
+            except Exception as exc:
+                return 'escaped', [('%s|exception-escapes|%s' % (sig, type(exc).__name__), repr(exc)[:300])], 1
+            st = res.get('FOO-MIB')
+            stored = None
+            if os.path.exists(os.path.join(dst, 'FOO-MIB' + ext)):
+                with open(os.path.join(dst, 'FOO-MIB' + ext), 'rb') as f:
+                    stored = f.read()
+            vs = []
+            if str(st) != 'borrowed':
+                vs.append(('%s|status-%s-where-borrowed' % (sig, st), '%r' % (getattr(st, 'error', None),)))
+            if stored != copy.encode('utf-8'):
+                vs.append(('%s|destination-does-not-hold-the-copy' % sig, 'stored %r, copy %r' % (stored, copy.encode('utf-8'))))
+            return '%s:%s' % (st, stored is not None), vs, 1
+        finally:
+            shutil.rmtree(root, ignore_errors=True)
+
+
 class SeveralPerFile(C07.SeveralPerFile):
     """C07's worlds of multi-module files over two sources, with a borrower that holds one of the modules: a module for which a
     sound copy is found (later in the same file, in its own file, at a later source) is compiled, never borrowed; the broken
@@ -341,4 +411,4 @@ class SeveralPerFile(C07.SeveralPerFile):
         return bool(world.get('borrowers'))
 
 
-FAMILIES = [BorrowerLists(), FileBorrowers(), CopyAges(), RequestedByModuleName(), BorrowedSpellings(), SeveralPerFile()]
+FAMILIES = [BorrowerLists(), FileBorrowers(), CopyAges(), RequestedByModuleName(), BorrowedSpellings(), SeveralPerFile(), ThroughTheRealWriters()]
